@@ -974,7 +974,7 @@ const char *sim_variant(void) { return __asan_init ? "asan" : "sim"; }
 
 // sanitizer defaults for the asan variant: classify hits by exit code 77, no leak checking
 __attribute__((used, visibility("default"))) const char *__asan_default_options(void) {
-  return "exitcode=77:detect_leaks=0:abort_on_error=0:handle_abort=0:allocator_may_return_null=1:detect_stack_use_after_return=0:symbolize=1:print_summary=1";
+  return "exitcode=77:quarantine_size_mb=48:detect_leaks=0:abort_on_error=0:handle_abort=0:allocator_may_return_null=1:detect_stack_use_after_return=0:symbolize=1:print_summary=1";
 }
 __attribute__((used, visibility("default"))) const char *__ubsan_default_options(void) {
   return "halt_on_error=1:exitcode=77:print_stacktrace=1";
